@@ -200,6 +200,18 @@ theorem zero_window_means_waker_registered (r r' : Rx) (n : Nat) (ws : List Wake
       rw [hrem, hw, hfront] at hz
       omega
 
+/-- **A size probe can never block the send queue for good (D23).** When the next unsent segment is a probe that was
+never transmitted and does not fit the window while nothing at all is in flight - the one situation in which no
+acknowledgement can arrive to open the window and no timer is armed - the send loop does not simply stop: it reports
+the probe (size 0 = "does not fit") and `send_tx_queue` pops it, makes the next segment an ordinary one and restarts
+the poll loop, so its bytes are segmented again at a proven size, which always fits (`window() ≥ 2·MSS`, C15). -/
+theorem oversized_probe_is_resegmented (h : Header) (item : SegView) (rest : List SegView) (v : VSock) (c : Ctx) (rem : Nat)
+    (hrem : rem < item.seg.payloadSize) (hfl : v.segs.calcFlightSize v.lastSentSeqNr = 0)
+    (hp : item.seg.isMtuProbe = true) (hs : item.seg.sendCount = 0) :
+    newDataLoop h (item :: rest) v c rem = .ok (v, c, some (item.seqNr, 0)) := by
+  unfold newDataLoop
+  simp [hrem, hfl, hp, hs, pure, Except.pure]
+
 /-- **Each useful acknowledgement makes strict progress**: an ACK whose number is at or beyond the
 first unacknowledged segment removes at least one segment from the queue (so `snd_una` advances). -/
 theorem ack_makes_progress (s : Segments) (now ackNr : Nat) (sack : Option Sack) (h : SInv s) (hu : s.sndUna < 65536)
